@@ -8,6 +8,7 @@ INT_TYPES = {
     'short': (16, True), 'unsigned short': (16, False), 'int': (32, True), 'unsigned int': (32, False),
     'long': (64, True), 'unsigned long': (64, False), 'long long': (64, True), 'unsigned long long': (64, False),
     '__int128': (128, True), 'unsigned __int128': (128, False),
+    'randomx_flags': (32, True),     # unscoped enum with int underlying type (randomx.h)
 }
 
 
